@@ -80,6 +80,8 @@ impl WaitGroup {
       tracing::trace!("WaitGroup::wait() called when count is already zero");
       return;
     }
+    #[cfg(rzmq_verif)]
+    crate::verif::point("wg.wait.checked");
 
     // Slow path: Wait for notification.
     loop {
@@ -92,6 +94,8 @@ impl WaitGroup {
         return;
       }
       tracing::trace!("WaitGroup::wait() woke, but count is non-zero; re-waiting");
+      #[cfg(rzmq_verif)]
+      crate::verif::point("wg.wait.rechecked");
       // If count is still non-zero, loop and wait again.
     }
   }
